@@ -615,6 +615,19 @@ def check_C05(tier, seed):
             if 0 <= i < len(cases):
                 c = cases[i]
                 res.samples.append(dict(input=c["text"], expected_value=c["value"], content_indent=c["n"], lines=c["classes"]))
+    if tier == "thorough" and proof.get("ok"):
+        with core.Lock():
+            ok, out = core.coqchk(PID)
+        res.coverage["coqchk"] = "ok" if ok else "FAILED"
+        if not ok:
+            res.add_tie_break("coqchk rejects the compiled proofs", error=out[-1500:])
+    res.notes.append("theorems (scanner model, string back-end, all inputs of the class): nls/chomping arithmetic; content line through "
+                     "the buffered-peek loop and the raw fast path; skip_spaces_to / skip_block_scalar_indent (narrow and wide path) / "
+                     "skip_first_line_indent; scan_block_scalar = block_value for literal AND folded style, every chomping, explicit "
+                     "or auto indentation >= 1, all line lists with >= 1 content line (final newline + less indented line / end of "
+                     "input; end of input right after the last content line) and for content-less scalars (end-of-stream path, "
+                     "enclosing-collection follower).  C05_full (all shapes, header comments, CR/CRLF, column-0 content, buffered "
+                     "back-ends) is stated and refuted on the faithful model by the three known-finding classes.")
     res.assumptions += [
         "reading R1: the end of the input terminates a line like a line break (yaml-test-suite JEF9-02)",
         "reading R2: an indentation indicator at top level counts from column 0 (parent indentation -1 read as 0)",
